@@ -319,6 +319,8 @@ def prefix_probe_layer() -> Dict[str, Any]:
     from ..odxgen import dct_std, p_const, p_value, u8const
     m = {"kind": "BASE-VARIANT", "name": "prefixprobes", "dobjs": [dict(d) for d in codeccompose.POOL],
          "gneg": []}
+    m["dobjs"] += [dict(o) for o in codeccompose.probe_layer()["dobjs"]
+                   if o["name"] in ("st_c1", "st_c2", "tab")]
     rqs = [
         {"name": "pp_first_later", "shape": "first-listed-at-later-position",
          "feat": {"shape": "first-listed-at-later-position"},
@@ -334,6 +336,26 @@ def prefix_probe_layer() -> Dict[str, Any]:
         {"name": "pp_bits", "shape": "sub-byte-constant", "feat": {"shape": "sub-byte-constant"},
          "params": [p_const("hi", dct_std("A_UINT32", 4), 0xA, byte=0, bit=4), p_value("lo", "u4", byte=0, bit=0)]},
     ]
+    # one service per table row, as data identifiers are usually modelled: the key names its
+    # row statically, the content of the row still has to be given
+    rqs.append({"name": "pp_rowref", "shape": "table-row-selected-statically",
+                "feat": {"shape": "table-row-selected-statically"},
+                "params": [u8const("sid", 0x41),
+                           {"p": "TABLE-KEY", "name": "tk", "byte": None, "bit": None,
+                            "row": ["tab", "r_struct"]},
+                           {"p": "TABLE-STRUCT", "name": "ts", "byte": None, "bit": None, "key": "tk"}]})
+    # nothing but constants, the last one of a kind whose end depends on what follows it
+    # (terminated unless it is the last thing in the PDU - which it is)
+    from ..odxgen import dct_minmax
+    rqs.append({"name": "pp_all_const_text", "shape": "all-constant-ending-in-terminated-text",
+                "feat": {"shape": "all-constant-ending-in-terminated-text"},
+                "params": [u8const("sid", 0x31),
+                           {"p": "PHYS-CONST", "name": "txt", "byte": None, "bit": None, "dop": "mmz",
+                            "value": "sport"}]})
+    rqs.append({"name": "pp_all_const_bytes", "shape": "all-constant-ending-in-terminated-bytes",
+                "feat": {"shape": "all-constant-ending-in-terminated-bytes"},
+                "params": [u8const("sid", 0x32),
+                           p_const("blob", dct_minmax("A_BYTEFIELD", 1, 5, "HEX-FF"), b"\x01\x02")]})
     rqs.append({"name": "pp_did", "shape": "request-with-did", "feat": {"shape": "request-with-did"},
                 "params": [u8const("sid", 0x22), p_value("did", "u16"), p_value("opt", "u8")]})
     pos = [{"name": "pr_echo2", "for": "pp_did", "shape": "response-echo-2-bytes",
@@ -341,6 +363,11 @@ def prefix_probe_layer() -> Dict[str, Any]:
             "params": [u8const("rsid", 0x62),
                        {"p": "MATCHING-REQUEST-PARAM", "name": "did", "req_pos": 1, "len": 2},
                        p_value("r", "u8")]},
+           {"name": "pr_echo_const", "for": "pp_did", "shape": "response-echo-then-terminated-constant",
+            "feat": {"shape": "response-echo-then-terminated-constant"},
+            "params": [u8const("rsid", 0x62),
+                       {"p": "MATCHING-REQUEST-PARAM", "name": "did", "req_pos": 1, "len": 2},
+                       p_const("blob", dct_minmax("A_BYTEFIELD", 1, 5, "HEX-FF"), b"\xab\xcd")]},
            {"name": "pr_echo3", "for": "pp_did", "shape": "response-echo-3-bytes",
             "feat": {"shape": "response-echo-3-bytes"},
             "params": [u8const("rsid", 0x62),
